@@ -115,7 +115,7 @@ def features(decl, plan, pairs):
 
 def diagnose(decl, target, data):
     """structural facts about the case, read from the parser's own field objects (diagnosis only)"""
-    facts = {"multi": [], "multi_diff": [], "multi_diff_noinput": [], "required_but_noinput": []}
+    facts = {"multi": [], "multi_diff": []}
     try:
         parser = getattr(target, "__parser__", None)
         opts = D.make_options(decl["options"])
@@ -125,42 +125,31 @@ def diagnose(decl, target, data):
             if fld is not None:
                 by_field.setdefault(fld.attname, (fld, []))[1].append(v)
         for an, (fld, vals) in by_field.items():
-            diff = len(vals) > 1 and any(not V.approx_eq(vals[0], x) for x in vals[1:])
-            noinp = any(fld.is_no_input(x, options=opts) for x in vals)
-            if len(vals) > 1:
+            # values that are not taken as input play no part (both strategies ignore them since the repairs in /repo)
+            taken = [x for x in vals if not fld.is_no_input(x, options=opts)]
+            if len(taken) > 1:
                 facts["multi"].append(an)
-            if diff and noinp:
-                facts["multi_diff_noinput"].append(an)
-            elif diff:
-                facts["multi_diff"].append(an)
-            if noinp and fld.is_required(options=opts):
-                facts["required_but_noinput"].append(an)
+                if any(not V.approx_eq(taken[0], x) for x in taken[1:]):
+                    facts["multi_diff"].append(an)
     except Exception as e:
         facts["diagnosis_error"] = type(e).__name__
     return facts
 
 
 def classify(decl, target, data, shape, a, b):
-    """mechanism key.  The three listed findings are recognised by structure AND outcome shape; everything
+    """mechanism key.  The listed finding is recognised by structure AND outcome shape; everything
     else gets a generic key (a new violation)."""
     f = diagnose(decl, target, data)
     o = decl["options"]
     ea = type(a.exc).__name__ if not a.ok else None
     eb = type(b.exc).__name__ if not b.ok else None
-    if f["multi_diff_noinput"] and shape in ("ok-vs-fail", "collected-errors-differ", "both-accept-different-data") \
-            and (shape != "ok-vs-fail" or eb == "AliasConflictError"):
-        return "C06/conflicting-spellings-of-a-no_input-field"
-    if f["required_but_noinput"] and shape in ("fail-vs-ok", "collected-errors-differ") and (shape != "fail-vs-ok" or ea == "AbsenceError"):
-        return "C06/required-field-whose-given-value-is-not-taken-as-input"
     if (f["multi"] and o.get("ignore_alias_conflicts")) or (f["multi_diff"] and shape == "collected-errors-differ"):
         # with ignore_alias_conflicts data-first parses every given spelling (the last one wins, any of them may fail)
         # while field-first picks one by alias order; with conflicts reported, which value is parsed besides differs
         return "C06/several-spellings-of-one-field-are-considered-in-a-different-order"
     tags = []
-    if f["multi_diff"] or f["multi_diff_noinput"]:
+    if f["multi_diff"]:
         tags.append("several-spellings")
-    if f["required_but_noinput"]:
-        tags.append("no_input")
     if decl["base"] == "function":
         tags.append("function")
     for k in ("ignore_required", "addition", "no_default", "force_default", "defer_default", "mode"):
